@@ -43,19 +43,19 @@ structure Switch where
 inductive MaintRead
   | absent
   | err (fileExists : Bool)             -- read failed (not NotFound); maintenance marker file present?
-  | rec (light paused shouldLeave : Bool)
+  | record (light paused shouldLeave : Bool)
   deriving Repr, DecidableEq
 
-inductive SwitchRead | absent | err | rec (sw : Switch)
+inductive SwitchRead | absent | err | record (sw : Switch)
   deriving Repr, DecidableEq
 
 inductive LastSwitchRead
   | absent | err
-  | rec (resultNil : Bool) (causeAuto : Bool) (finishedAt : Int)
+  | record (resultNil : Bool) (causeAuto : Bool) (finishedAt : Int)
   deriving Repr, DecidableEq
 
 /-- outcome of the abstract `performSwitchover` + the re-read of the request that follows it -/
-inductive PerformOutcome | ok | failed | abortedMeanwhile
+inductive PerformOutcome | ok | failed | abortedMeanwhile | panicked
   deriving Repr, DecidableEq
 
 inductive Refusal
@@ -69,7 +69,7 @@ inductive Step
   | enterMaintenance (ok : Bool)        -- full mode: `enterMaintenance`
   | tryLeaveMaintenance
   | failoverSuppressedByLight
-  | switchTimedOut                      -- `FailSwitchover(timed out)` — re-writes the request
+  | switchTimedOut                      -- `FinishSwitchover(timed out)` → last_rejected_switch (since the fix: commit; before it: FailSwitchover, request kept)
   | switchRejected                      -- `FinishSwitchover(err)` → last_rejected_switch
   | switchStarted (ok : Bool)           -- `StartSwitchover`
   | switchPerformed (o : PerformOutcome)
@@ -107,6 +107,8 @@ structure In where
   enterMaintOk : Bool := true
   startOk : Bool := true
   perform : PerformOutcome := .ok
+  /-- the state returned by `tryLeaveMaintenance` (modelled in MysyncModel/App/Maintenance.lean) -/
+  tryLeaveNext : State := .manager
   deriving Repr
 
 structure Out where
@@ -146,7 +148,7 @@ def approveFailover (cfg : Cfg) (i : In) (master : String) (failedAt : Option In
       else match i.last with
         | .absent => .ok none
         | .err => .ok (some .lastSwitchReadErr)
-        | .rec resultNil causeAuto finishedAt =>
+        | .record resultNil causeAuto finishedAt =>
           if resultNil then .ok (some .lastSwitchInProgress)
           else if i.now - finishedAt < cfg.failoverCooldown && causeAuto then .ok (some .cooldown)
           else .ok none
@@ -204,7 +206,7 @@ def handleSwitch (cfg : Cfg) (i : In) (master : String) (light : Bool) (pre : Li
   match i.sw with
   | .err => { steps := pre, next := .manager, failedAt := i.failedAt }
   | .absent => afterSwitch cfg i master light pre
-  | .rec sw =>
+  | .record sw =>
     if light && sw.failoverType then afterSwitch cfg i master light (pre ++ [.failoverSuppressedByLight])
     else
       let timedOut := match sw.initiatedAt with
@@ -216,6 +218,7 @@ def handleSwitch (cfg : Cfg) (i : In) (master : String) (light : Bool) (pre : Li
       else
         let tail : List Step := match i.perform with
           | .abortedMeanwhile => []
+          | .panicked => [.panic "performSwitchover"]
           | .failed => [.switchFailed]
           | .ok => [.switchFinished]
         { steps := pre ++ [.switchStarted true, .switchPerformed i.perform] ++ tail, next := .manager, failedAt := i.failedAt }
@@ -233,14 +236,14 @@ def stateManager (cfg : Cfg) (i : In) : Out :=
         | .err true => { steps := [], next := .maintenance, failedAt := i.failedAt }
         | .err false => handleSwitch cfg i master false []
         | .absent => handleSwitch cfg i master false []
-        | .rec true paused shouldLeave =>
+        | .record true paused shouldLeave =>
           -- light mode
-          if shouldLeave then { steps := [.tryLeaveMaintenance], next := .manager, failedAt := i.failedAt }
+          if shouldLeave then { steps := [.tryLeaveMaintenance], next := i.tryLeaveNext, failedAt := i.failedAt }
           else if !paused then
             if i.setPausedOk then handleSwitch cfg i master true [.setMaintPaused true]
             else { steps := [.setMaintPaused false], next := .manager, failedAt := i.failedAt }
           else handleSwitch cfg i master true []
-        | .rec false paused _ =>
+        | .record false paused _ =>
           -- full mode
           if !paused then
             if i.enterMaintOk then { steps := [.enterMaintenance true], next := .maintenance, failedAt := i.failedAt }
